@@ -18,7 +18,7 @@ use serde_json::Value;
 
 #[derive(Debug, Clone, Serialize, Deserialize, PartialEq)]
 pub enum Kind {
-    /// 0 conv, 1 BEL, 2 hybrid, 3 hybrid with a flat battery
+    /// 0 conv, 1 BEL, 2 hybrid, 3 hybrid with a flat battery, 4 conv with the engine commanded on / None / off along the trace
     Loco(u8),
     /// unit kinds 0 conv / 1 BEL
     Consist(Vec<u8>),
@@ -156,6 +156,7 @@ fn loco_of(k: u8) -> Locomotive {
         0 => Locomotive::default(),
         1 => Locomotive::default_battery_electric_loco(),
         2 => Locomotive::default_hybrid_electric_loco(),
+        4 => Locomotive::default(), // conventional unit driven with an engine on / None / off pattern
         _ => {
             // hybrid with a flat battery (at its minimum SOC): the feasible engine / battery split collapses to a point
             // and the hybrid's controller takes its no-search branch
@@ -167,6 +168,15 @@ fn loco_of(k: u8) -> Locomotive {
             h
         }
     }
+}
+
+/// the same trace with the engine commanded off (and zero demand) at every 4th sample from sample 2 on
+fn power_trace_engine_off(len: usize, fail_at: Option<usize>) -> PowerTrace {
+    let time: Vec<f64> = (0..=len).map(|x| x as f64).collect();
+    let off = |i: usize| i >= 2 && i % 4 == 2 && Some(i) != fail_at;
+    let pwr: Vec<f64> = (0..=len).map(|i| if Some(i) == fail_at { 1.0e12 } else if off(i) { 0.0 } else { 2.0e5 + 1.0e4 * i as f64 }).collect();
+    let eng: Vec<Option<bool>> = (0..=len).map(|i| if off(i) { Some(false) } else if i % 3 == 0 { None } else { Some(true) }).collect();
+    PowerTrace::new(time, pwr, eng)
 }
 
 fn power_trace(len: usize, fail_at: Option<usize>) -> PowerTrace {
@@ -187,7 +197,8 @@ pub fn run_case(c: &Case) -> Outcome {
     let executed = |len: usize, fail_at: Option<usize>| fail_at.map(|f| f - 1).unwrap_or(len);
     match &c.kind {
         Kind::Loco(k) => {
-            let mut sim = LocomotiveSimulation::new(loco_of(*k), power_trace(c.len, c.fail_at), c.interval);
+            let trace = if *k == 4 { power_trace_engine_off(c.len, c.fail_at) } else { power_trace(c.len, c.fail_at) };
+            let mut sim = LocomotiveSimulation::new(loco_of(*k), trace, c.interval);
             let r = guarded(|| sim.walk());
             let n = executed(c.len, c.fail_at);
             o.steps = n as u64;
@@ -474,7 +485,7 @@ pub fn cases(tier: Tier) -> Vec<Case> {
     } else {
         lens.push(50);
     }
-    let mut kinds: Vec<Kind> = vec![Kind::Loco(0), Kind::Loco(1), Kind::Loco(2), Kind::Loco(3)];
+    let mut kinds: Vec<Kind> = vec![Kind::Loco(0), Kind::Loco(1), Kind::Loco(2), Kind::Loco(3), Kind::Loco(4)];
     for n in 1..=3usize {
         for mask in 0..(1u32 << n) {
             kinds.push(Kind::Consist((0..n).map(|k| ((mask >> k) & 1) as u8).collect()));
@@ -566,7 +577,7 @@ impl Prop for C19 {
         "C19"
     }
     fn rule(&self, tier: Tier) -> String {
-        format!("E-SHAPE on the real walk(): simulation kinds {{LocomotiveSimulation conv/BEL/hybrid/hybrid with a flat battery, ConsistSimulation over all {{conv,BEL}}^n n<=3 (+ conv+hybrid, conv+flat hybrid, flat hybrid+BEL+hybrid), SetSpeedTrainSim with 3 consists, SpeedLimitTrainSim walk and walk_timed_path (also broken at entry 1 / 2 by a non-contiguous link)}} x save interval in {{None,1,2,3,7}} x every run length 0..{} (+ long runs) x every position of a failing step (demand no unit can meet / negative trace speed); E-SEQ: every sequence of {} actions from {{step ok, step failing, set_save_interval(None|1|2|3)}} on a LocomotiveSimulation and a ConsistSimulation, oracle after every action; nested E-SEQ: every sequence of the same length over those actions plus 'set ONE nested locomotive's interval behind the top level's back' (at least once) on a three-unit ConsistSimulation and on a SetSpeedTrainSim, starting from intervals 1 and 5 (5 = the value the nested unit is set to): after every top-level set the interval must have reached every nested object again. The object tree is inspected generically through its serialized form (every nested history, state.i and save_interval). distinct_nontrivial = distinct (kind, interval, ok/fail, action-shape) signatures.", if tier.is_thorough() { 16 } else { 12 }, if tier.is_thorough() { 6 } else { 5 })
+        format!("E-SHAPE on the real walk(): simulation kinds {{LocomotiveSimulation conv/BEL/hybrid/hybrid with a flat battery/conv with an engine on-None-off pattern, ConsistSimulation over all {{conv,BEL}}^n n<=3 (+ conv+hybrid, conv+flat hybrid, flat hybrid+BEL+hybrid), SetSpeedTrainSim with 3 consists, SpeedLimitTrainSim walk and walk_timed_path (also broken at entry 1 / 2 by a non-contiguous link)}} x save interval in {{None,1,2,3,7}} x every run length 0..{} (+ long runs) x every position of a failing step (demand no unit can meet / negative trace speed); E-SEQ: every sequence of {} actions from {{step ok, step failing, set_save_interval(None|1|2|3)}} on a LocomotiveSimulation and a ConsistSimulation, oracle after every action; nested E-SEQ: every sequence of the same length over those actions plus 'set ONE nested locomotive's interval behind the top level's back' (at least once) on a three-unit ConsistSimulation and on a SetSpeedTrainSim, starting from intervals 1 and 5 (5 = the value the nested unit is set to): after every top-level set the interval must have reached every nested object again. The object tree is inspected generically through its serialized form (every nested history, state.i and save_interval). distinct_nontrivial = distinct (kind, interval, ok/fail, action-shape) signatures.", if tier.is_thorough() { 16 } else { 12 }, if tier.is_thorough() { 6 } else { 5 })
     }
     fn assumptions(&self) -> Vec<String> {
         vec![
